@@ -32,6 +32,9 @@ CHECKS = {
  "C08": ("exploration", "runtime monitor: executable stitching rule compared with the real listing on harness-written archives, bounded-exhaustive + random",
          "Every arrangement of complete/incomplete/hunk-less/absent bands over small path alphabets and every hunk split (exhaustive for (B=2,P=4) and (B=3,P=3); thorough adds (B=4,P=2) and (B=3,P=4)) is written by the harness's own format writer and listed by the real code for every N; the result must equal an executable statement of the stitching rule, be strictly increasing, and finish within an operation budget; filter variants on a sample; random larger archives with removed hunks.",
          "Trusted: fmt06 writer/reader, oracle::stitch_model and oracle::apath_cmp as restatements of the documented rules. Termination is decided as bounded progress (operation budget).", "3 C08"),
+ "C09": ("fault_enumeration", "runtime monitor: validate observed after every step of fault-free histories; every single-file damage of generated archives judged by restore-based harm oracle vs validate's report",
+         "Healthy side: full and quick validation after every archive-changing step of generated histories must be silent. Damage side: for EVERY file of generated archives x {delete, truncate 0, truncate half, garbage} and 8 bit flips per block, harm is decided by restoring every complete version and comparing with its pre-damage tree; every harmful damage must be reported by full validation (and deletions by quick validation).",
+         "Trusted: restore-and-compare as the definition of harm; 'version' restricted to complete versions.", "3 C09"),
  "C11": ("exploration", "runtime monitor: executable order/validity model compared with Apath on exhaustive small alphabets + emitters observed on generated trees",
          "All pairs/triples of valid paths over two alphabets up to depth 4/3 and every string over a 13-component alphabet (exhaustive within the bound) are compared against an independent statement of the documented order and validity rule; the source walk, listings and independently decoded hunks of generated trees must be strictly increasing under it.",
          "Trusted: oracle::apath_key as restatement of doc/format.md; snap + serde_json to decode hunks.", "3 C11"),
